@@ -115,6 +115,19 @@ CLAIMED = {
         "Start/Finish/Reset.",
    technique="TLA+/TLC trace validation (direction B) plus TLC model checking of the allocator contract; checking allocators; objcopy symbol renaming",
    design="DESIGN.md §4 C17, §3.6"),
+ "C18": dict(level="exploration",
+   text="Static inventory of every writable process-wide object of the library objects (exhaustive for .data/.bss/.tdata/.tbss/COMMON symbols, "
+        "function-local statics included, in gcc -O0, gcc -O1 and clang builds, with the functions that store to or take the address of each) "
+        "against the Globals constant of MIRThreads.tla, whose NoSharedWrite invariant TLC checks (a mutable static in the set yields the "
+        "violating interleaving: _defect.cfg). All phase-overlap schedules (every transition of the MIRThreads schedule graph: 2 threads quick; "
+        "3 threads, mixed MIR/C workloads, plus random complete schedules thorough) are executed on one context per thread under ThreadSanitizer "
+        "and repeated in a plain build, per-thread results compared with the workload run alone and with the specification's expected result.",
+   note="ThreadSanitizer observes only interleavings that happen and reports a given race probabilistically; schedules control which phases overlap, "
+        "not individual accesses; generated machine code is not instrumented. The inventory / writer / address-taker comparison is exhaustive for "
+        "what it checks: a new static, or a new function referencing a listed one, is detected without a lucky schedule.",
+   technique="TLA+ spec of N threads x phases with a Globals inventory (TLC BFS emits every schedule-graph transition); pthread barrier harness under "
+             "TSan and plain builds with workloads from MIRProg.tla; nm/objdump inventory and access map compared with the specification",
+   design="DESIGN.md §4 C18, §3.6"),
 }
 NOT_YET = "not claimed yet: the specification/binding for this property is still under construction in this round (DESIGN.md §7 order)"
 
